@@ -57,7 +57,7 @@ def _h1(ctx):
                 _single_term_with_n(ctx, R, rm, st, v, tt)
     ctx.require(k >= 8, R, f"cost column stores found: {k}")
     ni = single_defs(rm.node, rm.params()).get("n_instances")
-    ok = ni is not None and norm(ni) == "workload.n_instances * workload.einsums[job.einsum_name].n_instances"
+    ok = ni is not None and Normaliser().poly(ni) == Normaliser().poly(ast.parse("workload.n_instances * workload.einsums[job.einsum_name].n_instances", mode="eval").body)
     ctx.check(ok, R, rm, ni if ni is not None else rm.node, f"n_instances is `{norm(ni) if ni is not None else None}`, not workload.n_instances x einsum.n_instances", "n_instances = workload x Einsum instance counts")
     en = ctx.func(EN, "compute_energy_from_actions", R)
     N = Normaliser()
